@@ -243,6 +243,10 @@ func mapSchemaSetIDs(
 				schemaSetIds[schema.name] = schemaSetId
 				circleID = schemaSetId
 			}
+		} else if id, ok := schemaSetIds[relation]; ok {
+			// The relation does not circle back to this schema, but it has already been assigned
+			// to a set (for example a circle of its own that was found earlier): it stays there.
+			circleID = id
 		} else {
 			// If this schema and its relations does not circle back to itself, we
 			// increment `i` and assign the new value to this schema *only*
